@@ -311,6 +311,11 @@ class SqlCon:
             return Cursor([])
         if s == "SELECT name FROM sqlite_master WHERE type='table'":
             return Cursor([(k,) for k in self._tables()])
+        m = re.fullmatch(r"SELECT name FROM sqlite_master WHERE type='table' AND name (NOT )?LIKE '([^']*)'", " ".join(s.split()))
+        if m:
+            # LIKE: % any run of characters, _ exactly one character, ASCII case-insensitive
+            rx = re.compile("".join(".*" if ch == "%" else "." if ch == "_" else re.escape(ch) for ch in m.group(2)), re.I | re.S)
+            return Cursor([(k,) for k in self._tables() if bool(rx.fullmatch(k)) != bool(m.group(1))])
         if s == "SELECT c.type, c.name FROM pragma_table_info(?) c":
             t = self._tables().get(params[0].replace('""', '"') if False else params[0])
             return Cursor([(c[1], c[0]) for c in t["cols"]] if t else [])
